@@ -31,10 +31,10 @@ ASSUMPTIONS = [
 
 EXON_OPTS_Q = ((), ((1, 2),), ((1, 2), (5, 6)), ((1, 6), (3, 3)), ((5, 6), (1, 2)), ((2, 4), (3, 3), (5, 6)), ((0, 2), (5, 6)))    # last: starts at 0
 EXON_OPTS_T = EXON_OPTS_Q + (((2, 4), (3, 5)), ((4, 4),))
-EXTRA_Q = (None, ("CDS", 1, 9))
-EXTRA_T = (None, ("CDS", 1, 9), ("start_codon", 2, 3))
-ORDERS_Q = ("identity", "reversed", "rot1", "interleave")
-ORDERS_T = ORDERS_Q + ("rot-1", "bystart")
+EXTRA_Q = (None, ("CDS", 1, 9), ("promoter", 1, 2, "gene_only"))       # the last carries the gene's id but no transcript id
+EXTRA_T = (None, ("CDS", 1, 9), ("start_codon", 2, 3), ("promoter", 1, 2, "gene_only"))
+ORDERS_Q = ("identity", "reversed", "interleave")
+ORDERS_T = ORDERS_Q + ("rot1", "rot-1", "bystart")
 EXPLICIT = ("none", "gene", "transcript", "both")
 SHAPES = ((1,), (2,), (1, 1))        # transcripts per gene
 
@@ -140,14 +140,16 @@ def body(ch, ctx):
                 first = False
             else:
                 ex = ch.choose("exons_%s" % tid, exon_opts[:6] if q else exon_opts)     # quick: the start-0 set only as the first transcript
-            extra = ch.choose("extra_%s" % tid, extras)
+            # (the gene-only line is an option of the very first transcript only, to keep the product affordable)
+            extra = ch.choose("extra_%s" % tid, extras if (gi == 0 and ti == 0) else [x for x in extras if not (x and len(x) > 3)])
             toff = off + 10 * ti
             exs = []
             for (s, e) in ex:
                 exs.append((s + toff, e + toff))
                 glines.append(dict(ft=sub, seqid=seqid, start=s + toff, end=e + toff, strand=strand, t=tid, g=gid))
             if extra:
-                glines.append(dict(ft=extra[0], seqid=seqid, start=extra[1] + toff, end=extra[2] + toff, strand=strand, t=tid, g=gid))
+                glines.append(dict(ft=extra[0], seqid=seqid, start=extra[1] + toff, end=extra[2] + toff, strand=strand,
+                                   t=None if len(extra) > 3 else tid, g=gid, gene_only=len(extra) > 3))
             gtx.append((tid, gid, exs, bool(ex) or bool(extra)))
         if explicit in ("transcript", "both"):
             for tid, _, exs, _any in gtx:
@@ -210,6 +212,9 @@ def body(ch, ctx):
         if l.get("explicit") == "t":
             rel.add((l["g"], l["t"], 1))
             soft.add((l["g"], l["t"], 2))
+            continue
+        if l.get("gene_only"):
+            rel.add((l["g"], l["id"], 2))        # a line of the gene that belongs to no transcript: a level-2 child of its gene
             continue
         rel.add((l["t"], l["id"], 1))
         rel.add((l["g"], l["id"], 2))
